@@ -210,6 +210,25 @@ impl DB {
     pub fn flush_for_verif(&self) -> bool {
         self.force_memtable_compaction().is_ok()
     }
+
+    /// Verification hook: a compaction state opens `n` output files one after the other (as a table compaction whose output
+    /// is split does); returns (numbers of the outputs, table numbers protected from obsolete-file removal afterwards).
+    pub fn compaction_outputs_for_verif(&self, n: usize) -> (Vec<u64>, Vec<u64>) {
+        let db_state = self.generate_portable_state();
+        let manifest = crate::compaction::manifest::CompactionManifest::new(&self.options, 1);
+        let mut state = crate::compaction::state::CompactionState::new(manifest, 0);
+        for _ in 0..n {
+            state.drop_builder_for_verif();
+            if state.open_compaction_output_file(&db_state).is_err() {
+                break;
+            }
+        }
+        state.drop_builder_for_verif();
+        let outputs = state.get_output_files().iter().map(|f| f.file_number()).collect();
+        let mut in_use: Vec<u64> = self.guarded_fields.lock().tables_in_use.iter().copied().collect();
+        in_use.sort();
+        (outputs, in_use)
+    }
 }
 
 /// The primary database object that exposes the public API.
